@@ -49,7 +49,13 @@ def build(case, order=None):
         dofs = [o[0] for o in t["ops"]]
         f = complex(t["f"][0], t["f"][1]) if use_complex else float(t["f"][0])
         terms.append(Op(sym, dofs, f))
-    return basis, terms, Quantity(case.get("offset", 0.0))
+    if case.get("offset_unit"):
+        # the offset is handed over with an explicit unit; case["offset"] is its value in a.u. as converted by the
+        # HARNESS (own CODATA factors) and is what the dense reference / the model use
+        off = Quantity(case["offset_value"], case["offset_unit"])
+    else:
+        off = Quantity(case.get("offset", 0.0))
+    return basis, terms, off
 
 
 # ------------------------------------------------------------------ independent local matrices
